@@ -30,12 +30,11 @@ def main():
     pid = a.pid.upper()
 
     def body(tier, t0, seed):
-        from repo import Repo
+        import decide
         mod = importlib.import_module(f"props.{pid.lower()}")
-        repo = Repo(common.REPO)
-        res = common.Result(pid)
-        res.analysed["modules_parsed"] = len(repo.mods)
-        extra = mod.run(repo, res, tier) or {}
+        res, err, extra = decide.decide(pid, mod, common.REPO, tier)
+        if err is not None:
+            raise err
         if tier == "thorough":
             import selftest
             st = selftest.run_for(pid, mod, seed)
